@@ -63,9 +63,6 @@ func (g *schemaGenerator) generateRootType() error {
 	}
 
 	rootTypeName := g.getRootTypeName(g.schema, g.schemaFileName)
-	if _, ok := g.output.declsByName[rootTypeName]; ok {
-		return nil
-	}
 
 	_, err := g.generateDeclaredType((*schemas.Type)(g.schema.ObjectAsType), newNameScope(rootTypeName))
 
